@@ -56,6 +56,11 @@ add('C07', 'E-RUN+E-SQLDRV+E-CHSQL+E-REF(logq)', 'translation_validation',
     'Trusted: E-CHSQL as the model of ClickHouse (DESIGN Appendix A, self-tested), the direct evaluator (DESIGN Appendix E); judged cases are built so that every reasonable reading of LogQL agrees (regex anchoring, matchers on absent labels are probes); window granularity is one second as in the service.',
     'runtime translation validation: generated SQL executed by a reference interpreter vs direct evaluation on the same tables', 'DESIGN §3 C07')
 
+add('C16', 'E-RUN+gen+E-CHSQL+E-SQLDRV', 'exploration',
+    'Generated pprof profiles (1-4 sample types, 0-200 samples, depth up to 600 crossing the 511-level clamp, direct/indirect recursion, shared frames, locations without line info, inlined lines) go through both exported profile parsers; oracle A checks the stored tree per sample type (total = self + children, roots = sum of sample values, values_agg, function ids resolve, multiset of (name path, self, total) equals an independent fold of the abstract case); oracle B merges multisets of 1-6 stored trees in all permutations / shuffled row orders through the reader tree merge and layout code, fed both directly and through the real PlanMergeTraces SQL executed by E-CHSQL and the real ProfService over the scripted driver, and checks sums, order independence and flame-graph nesting (bars ordered, disjoint, inside their parent span, self <= total).',
+    'Trusted: the abstract profile generator and its fold, E-CHSQL for the SQL aggregation step (disagreement between the SQL feed and the direct fold is reported as undecided, not as a violation). Levels beyond the 511 clamp are judged on conservation only.',
+    'runtime monitoring: conservation and nesting invariants checked on the outputs of the real parsers, merge and layout code', 'DESIGN §3 C16')
+
 NOT_APPLICABLE = {
 }
 ALL = ['C%02d' % i for i in range(1, 21)]
